@@ -360,3 +360,71 @@ Print Assumptions C04_decoder_translated_short_keys.
 Print Assumptions C04_decoder_translated_short_floats.
 Print Assumptions C04_decoder_total_short.
 Print Assumptions C04_decoder_quoted_translated.
+
+(* ==================================================================================================================
+   TRUNCATION (Proofs/C04_prefix.v), for EVERY text the specification parser accepts - any byte string, any float
+   oracle, no bound: the text has balanced brackets outside string literals (the independent reading `balanced` of
+   Model/C04_scan.v); when it is a container or a quoted string (first character after white space: brace, bracket or
+   quote) every prefix p that leaves more than trailing white space behind (text = p ++ q, q not all white space) is
+   not balanced, is rejected by the specification parser, and is refused by the TRANSLATED Go scanner of Gen/Scanner.v
+   (eof does not answer scanEnd: by C04_scan_accept_balanced, and for a prefix of white space only because the
+   scanner has not left its initial state).  The printed texts of L (every layout) and the Go writer's texts (every
+   strict prefix) are instances through C04_spec_roundtrip / C04_writer_in_L. *)
+From GoMC Require Proofs.C04_prefix.
+Local Open Scope N_scope.
+
+Theorem C04_spec_accept_balanced : forall pf32 pf64 (s : list N) (t : tag),
+  parse pf32 pf64 s = Some t -> balanced (map Z.of_N s) = true.
+Proof. exact C04_prefix.spec_accept_balanced. Qed.
+
+Theorem C04_prefix_unbalanced : forall pf32 pf64 (p q : list N) (t : tag),
+  parse pf32 pf64 (p ++ q) = Some t -> C04_prefix.opener (skip_ws (p ++ q)) = true ->
+  all_ws q = false -> all_ws p = false -> balanced (map Z.of_N p) = false.
+Proof. exact C04_prefix.prefix_unbalanced. Qed.
+
+Theorem C04_spec_prefix_rejected : forall pf32 pf64 (p q : list N) (t : tag),
+  parse pf32 pf64 (p ++ q) = Some t -> C04_prefix.opener (skip_ws (p ++ q)) = true ->
+  all_ws q = false -> parse pf32 pf64 p = None.
+Proof. exact C04_prefix.spec_prefix_rejected. Qed.
+
+Theorem C04_scan_prefix_refused : forall pf32 pf64 (p q : list N) (t : tag),
+  parse pf32 pf64 (p ++ q) = Some t -> C04_prefix.opener (skip_ws (p ++ q)) = true ->
+  all_ws q = false -> scan_accepts (map Z.of_N p) = false.
+Proof. exact C04_prefix.scan_prefix_refused. Qed.
+
+(* every tree that is printed as a container or as a quoted string (C04_prefix.opens), every layout of L *)
+Theorem C04_printed_prefix_rejected : forall fm32 fm64 pf32 pf64,
+  oracle_ok fin32 fm32 pf32 -> oracle_ok fin64 fm64 pf64 ->
+  forall (ly : layout) (t : tag) (p q : list N), lay_ok ly -> wf t = true -> C04_prefix.opens (ly []) t = true ->
+  pr fm32 fm64 ly t = p ++ q -> all_ws q = false ->
+  parse pf32 pf64 p = None /\ scan_accepts (map Z.of_N p) = false /\
+  (all_ws p = false -> balanced (map Z.of_N p) = false).
+Proof. exact C04_prefix.printed_prefix_rejected. Qed.
+
+(* the Go writer's text (no white space): EVERY strict prefix *)
+Theorem C04_written_prefix_rejected : forall fm32 fm64 pf32 pf64,
+  oracle_ok fin32 fm32 pf32 -> oracle_ok fin64 fm64 pf64 ->
+  forall (t : tag) (p q : list N), wf t = true -> C04_prefix.opens C04_wr.wlay t = true ->
+  to_text fm32 fm64 t = p ++ q -> q <> [] ->
+  parse pf32 pf64 p = None /\ scan_accepts (map Z.of_N p) = false.
+Proof. exact C04_prefix.written_prefix_rejected. Qed.
+
+(* the hypotheses are satisfiable: {a:["]"]} cut before its last brace, and cut inside the string *)
+Example C04_prefix_ex :
+  parse toy_pf toy_pf ([123;97;58;91;34;93;34;93] ++ [125]) =
+    Some (TCompound (CCons [97] (TList (LCons (TString [93]) LNil)) CNil)) /\
+  C04_prefix.opener (skip_ws ([123;97;58;91;34;93;34;93] ++ [125])) = true /\ all_ws [125] = false /\
+  parse toy_pf toy_pf [123;97;58;91;34;93;34;93] = None /\
+  scan_accepts (map Z.of_N [123;97;58;91;34;93;34;93]) = false /\
+  balanced (map Z.of_N [123;97;58;91;34;93;34;93]) = false /\
+  balanced (map Z.of_N [123;97;58;91;34;93]) = false /\
+  C04_prefix.opens C04_wr.wlay (TString [49]) = true /\ C04_prefix.opens C04_wr.wlay (TString [97]) = false /\
+  to_text toy_fm toy_fm (TString [49]) = [34;49] ++ [34].
+Proof. repeat split; vm_compute; reflexivity. Qed.
+
+Print Assumptions C04_spec_accept_balanced.
+Print Assumptions C04_prefix_unbalanced.
+Print Assumptions C04_spec_prefix_rejected.
+Print Assumptions C04_scan_prefix_refused.
+Print Assumptions C04_printed_prefix_rejected.
+Print Assumptions C04_written_prefix_rejected.
